@@ -78,12 +78,12 @@ def sym_rotation(ctx, name: str, D: int, seed: int = 0, k: int = 0, flip: int = 
 
 
 def sym_grid(ctx, name: str, D: int, seed: int = 0, k: int = 0, sizes="int", align_corners: bool = True, flip: int = 0,
-             min_size: int = 2, rotation: bool = True, origin: bool = False):
+             min_size: int = 2, rotation: bool = True, origin: bool = False, center_wit=None):
     """Grid with symbolic spacing, center (or origin), rotation and (optionally) integer-variable sizes."""
     from deepali.core.grid import Grid
 
     s = ctx.reals(name + "s", pick(SPACINGS, seed, k)[:D], gt=0, nice=(0.125, 8))
-    c = ctx.reals(name + ("o" if origin else "c"), pick(CENTERS, seed, k)[:D], nice=(-16, 16))
+    c = ctx.reals(name + ("o" if origin else "c"), list(center_wit) if center_wit is not None else pick(CENTERS, seed, k)[:D], nice=(-16, 16))
     R = sym_rotation(ctx, name + "r", D, seed, k, flip) if rotation else None
     if sizes == "int":
         n = ctx.ints(name + "n", [max(v, min_size + (v % 3)) for v in pick(SIZES, seed, k)[:D]], ge=min_size, le=4096)
